@@ -107,7 +107,7 @@ func newRichDoc(c *fw.Case) *richDoc {
 		// an array of arrays of objects inside the row
 		grid := make([]any, c.Intn(3))
 		for i := range grid {
-			line := make([]any, c.Intn(3))
+			line := make([]any, c.Intn(5))
 			for j := range line {
 				line[j] = map[string]any{"e": float64(c.Intn(7)), "f": gen.Pick(c.R, []any{"p", "q"})}
 			}
@@ -363,6 +363,15 @@ var richForms = []richForm{
 		return gen.Pick(c.R, []string{"SELECT rid FROM t1 WHERE EXISTS (SELECT e FROM grid WHERE e > 2)", "SELECT rid FROM t1 WHERE NOT EXISTS (SELECT * FROM grid WHERE e >= n1)",
 			"SELECT rid FROM t1 WHERE EXISTS (SELECT a FROM `<-mm` WHERE a > 3)", "SELECT rid, (SELECT e FROM grid) AS g FROM t1", "SELECT rid FROM t1 WHERE n1 IN (SELECT e FROM grid)",
 			"SELECT rid FROM t1 WHERE EXISTS (SELECT e FROM `mix=>grid` WHERE e > 2)"})
+	}},
+	{"plain.dim-range", false, false, func(c *fw.Case, d *richDoc, vf string) string {
+		// a range in a later dimension of a multi-dimensional selector, as a column and as the FROM table
+		return gen.Pick(c.R, []string{"SELECT rid, `grid[each, (0:1)]` AS g FROM t1", "SELECT rid, `grid[each, (1:2)]` AS g, `grid[(0:1), each]` AS h FROM t1", "SELECT * FROM `mm[each, (0:1)]`",
+			"SELECT a FROM `cube[each, each, (0:1)]`", "SELECT rid, `grid[(0:1)]` AS g, `arr[(0:1)]` AS a FROM t1", "SELECT rid, `grid[each, (0:end)]` AS g FROM t1 WHERE n1 >= 0"})
+	}},
+	{"plain.fuse-array", false, false, func(c *fw.Case, d *richDoc, vf string) string {
+		// FUSE over a column that holds an array of objects
+		return gen.Pick(c.R, []string{"SELECT rid, FUSE(arr) FROM t1", "SELECT FUSE(arr), rid FROM t1", "SELECT rid, FUSE(arr) AS a FROM t1", "SELECT rid, FUSE((SELECT e, f FROM arr)) FROM t1", "SELECT rid, FUSE(`grid[0]`) FROM t1"})
 	}},
 	{"plain.fuse-async", false, false, func(c *fw.Case, d *richDoc, vf string) string {
 		// the "enrich the row" idiom: a fused object one of whose columns is a background call
